@@ -509,6 +509,45 @@ func checkC16(r *Run) {
 		}
 		groups = append(groups, g)
 	}
+	// a configuration that fits on the command line completely: the file named by config= may then be
+	// blank or hold comments only; and list entries shared between lists written as YAML anchors / aliases
+	{
+		mkPlain := func() *descgen.Entry {
+			sub := descgen.M("PlainSub", descgen.F("Note"), descgen.F("Level", descgen.Sc(ir.Int32)))
+			m := descgen.M("Plain", descgen.F("Name"), descgen.F("Count", descgen.Sc(ir.Int64)), descgen.F("Secret"), descgen.F("Sub", descgen.MsgT("PlainSub")), descgen.F("Subs", descgen.MsgT("PlainSub"), descgen.Rep()))
+			f := &ir.File{Name: "plain16.proto", Package: "plain16", Messages: []*ir.Message{m, sub}}
+			descgen.AutoComments(f)
+			c := &ir.Config{Types: []string{"Plain", "PlainSub"}, Sort: true, SortSet: true, DurationCustomType: "Duration",
+				ExcludeFields: []string{"Plain.Subs.Level"}, ComputedFields: []string{"Plain.Count", "PlainSub.Note"},
+				RequiredFields: []string{"Plain.Name", "Plain.Secret"}, SensitiveFields: []string{"Plain.Secret", "PlainSub.Note", "Plain.Name"}}
+			return &descgen.Entry{Name: "plain16", File: f, Cfg: c}
+		}
+		g := grp{name: "plain16"}
+		for k, what := range []string{"all-yaml", "all-cli/no-config-param", "all-cli/comment-only-file", "all-cli/blank-file", "all-yaml/anchors-and-aliases"} {
+			e := mkPlain()
+			c := caseFrom(e)
+			c.NoWrite = true
+			c.Name = fmt.Sprintf("plain16_split%d", k)
+			c.Delivery.CLI = map[string]bool{}
+			if strings.HasPrefix(what, "all-cli") {
+				for _, o := range descgen.CLIOptions {
+					c.Delivery.CLI[o] = true
+				}
+			}
+			switch k {
+			case 2:
+				c.Delivery.Blank = "# every option is given on the command line\n"
+			case 3:
+				c.Delivery.Blank = "\n"
+			case 4:
+				c.Delivery.Anchors = true
+			}
+			c.Tags = append(c.Tags, what)
+			g.cases = append(g.cases, c)
+			all = append(all, c)
+		}
+		groups = append(groups, g)
+	}
 	// precedence: YAML carries a decoy value, the command line the real one
 	type conflict struct {
 		real, decoy *pipeline.Case
@@ -621,6 +660,12 @@ func checkC16(r *Run) {
 	})
 	mkErr("yaml-wrong-shape", "types=User,config=$CFG/shape.yaml", func(dir string) {
 		ioutil.WriteFile(filepath.Join(dir, "shape.yaml"), []byte("types: 17\nsort: [1,2]\n"), 0o644)
+	})
+	mkErr("yaml-scalar-instead-of-list", "types=User,config=$CFG/scalar.yaml", func(dir string) {
+		ioutil.WriteFile(filepath.Join(dir, "scalar.yaml"), []byte("exclude_fields: User.Title\n"), 0o644)
+	})
+	mkErr("yaml-mapping-instead-of-list", "types=User,config=$CFG/mapping.yaml", func(dir string) {
+		ioutil.WriteFile(filepath.Join(dir, "mapping.yaml"), []byte("required_fields:\n  User.Title: true\n"), 0o644)
 	})
 	mkErr("yaml-without-types", "config=$CFG/notypes.yaml", func(dir string) {
 		ioutil.WriteFile(filepath.Join(dir, "notypes.yaml"), []byte("sort: true\n"), 0o644)
